@@ -161,6 +161,8 @@ pub struct Ctl {
 	pub pending: Vec<Pending>,
 	pub kill_all: bool,   // scheduler ended the run (deadlock): parked threads unwind
 	pub nevents: usize,
+	pub ra: bool,           // release-atomic: a release directly after a release of the same thread is no scheduling point
+	pub lastrel: Vec<bool>, // per thread: its last scheduling-point operation was a release
 }
 
 impl Ctl {
@@ -178,6 +180,8 @@ impl Ctl {
 			pending: Vec::new(),
 			kill_all: false,
 			nevents: 0,
+			ra: false,
+			lastrel: Vec::new(),
 		}
 	}
 	pub fn reset(&mut self) {
@@ -280,7 +284,17 @@ fn raw_op(addr: usize, k: Rop) -> bool {
 		return true;
 	}
 	let l = { ctl().lock_of_addr(addr) };
-	let mut c = yield_point(me, Pending::Raw(k, l));
+	let is_rel = matches!(k, Rop::Unlock | Rop::UnlockSh);
+	let skip = {
+		let mut c = ctl();
+		if c.lastrel.len() <= me {
+			c.lastrel.resize(me + 1, false);
+		}
+		let sk = c.sched && c.ra && is_rel && c.lastrel[me];
+		c.lastrel[me] = is_rel;
+		sk
+	};
+	let mut c = if skip { ctl() } else { yield_point(me, Pending::Raw(k, l)) };
 	if c.stopped {
 		// the run was cut; happylock's unwinding handlers may still call us: do nothing
 		return false;
@@ -330,6 +344,12 @@ fn raw_op(addr: usize, k: Rop) -> bool {
 /// a data access by user code (through a guard or inside a scoped closure)
 pub fn data_event(wr: bool, pos: usize, tag: u32, ver: u32) {
 	let me = tid();
+	{
+		let mut c = ctl();
+		if c.lastrel.len() > me {
+			c.lastrel[me] = false;
+		}
+	}
 	let mut c = yield_point(me, Pending::Data);
 	if c.stopped {
 		return;
